@@ -26,7 +26,7 @@ func init() {
 			"C02.lower: toLower evaluated on a one-element slice for each class of a partition of all byte values (the seven letters as themselves, the gaps as an opaque byte known to lie in the gap; that elements are treated alike is the shape of its range loop): each letter becomes its own ASCII lower case, every other byte is unchanged; it is applied only when FormatLowerCase is set, to the appended bytes. (That the parser maps every literal the formatter can emit, in both letter cases, back to its digit is part of C02.sum: the value is decided on every word of the capture languages, which C02.alpha shows to contain the literals.) " +
 			"C02.flags: the eight base Format flags are distinct single bits and FormatLong4x/FormatLong9x/FormatLong are exactly the documented unions. C02.zero: n = 0 ↦ buffer unchanged; empty input ↦ (0, nil) unless RuleDisableEmptyAsZero. S-DELEG with verb table L, l, R, r, default. " +
 			"C02.valid: Valid and DefaultParser share the guard and match the same pattern on the whole input, for every input type (C10.same under this property). C02.buffer: the formatted numeral is appended to the caller's buffer and shares no storage with anything a later call can write (C16's append-only and buffer-independence rules on roman.DefaultFormatter). C02.sum: as C10.groups. C02.decomp single path: apart from the n = 0 exit every return of the formatter comes after all four unconditional writes into one buffer (the M loop entered from a block that dominates the hundreds write), returns that buffer's bytes with a nil error, and the buffer is only appended to. The regexp's skeleton is ^<1><2><3><4>$ (a matched text is the concatenation of its four captures)." +
-			" Added after the second rule audit: the 'M' loop has the counter test as its only exit and its header lies on every path to the return; with the decomposition in a helper, the caller's returns lie behind the unconditional helper call and hand back its buffer; toLower is called, exactly under the flag test (no further condition between the test and the call), after the last write to the buffer, on a slice without an upper bound; the other upper-case ASCII letters may be lower-cased too (no numeral holds one). Since audit round 3: from a write of the numeral no return is reached round the block that tests FormatLowerCase; every turn of the M loop passes the write exactly once; toLower holds no test on a position other than its loop bound (C02.lower every element).",
+			" Added after the second rule audit: the 'M' loop has the counter test as its only exit and its header lies on every path to the return; with the decomposition in a helper, the caller's returns lie behind the unconditional helper call and hand back its buffer; toLower is called, exactly under the flag test (no further condition between the test and the call), after the last write to the buffer, on a slice without an upper bound; the other upper-case ASCII letters may be lower-cased too (no numeral holds one). Since audit round 3: from a write of the numeral no return is reached round the block that tests FormatLowerCase; every turn of the M loop passes the write exactly once; toLower holds no test on a position other than its loop bound and no re-slice of its buffer with an upper bound (C02.lower every element).",
 		NotDecided:  []string{"the composition over whole numbers beyond its shape (C02.sum: the parser returns len(capture 1)×1000 + the three group values, every sum and product 64 bits wide on the analysed target)", "which n fit within MaxInputLength (128 bytes)"},
 		Assumptions: []string{"bits.Div64(0, x, c) returns quotient and remainder of x / c"},
 		Technique:   "constant-table reading + decision-table extraction + DFA membership + dataflow over go/ssa",
